@@ -4,7 +4,7 @@ obligation.  This check re-runs the symbolic executions of the other properties'
 obligations (and the path-coverage obligations that make them meaningful)."""
 import importlib
 
-SOURCES = ['c01', 'c02', 'c07', 'c13', 'c14', 'c08']
+SOURCES = ['c01', 'c02', 'c07', 'c13', 'c14', 'c08']      # c02 includes the evaluator arms
 
 
 def run(ctx):
